@@ -71,14 +71,14 @@ PyEq(a, b) ==
 (***************************************************************************)
 RECURSIVE Same(_, _)
 Same(a, b) ==
-  /\ a.k = b.k
+  /\ (a.k = b.k \/ {a.k, b.k} \subseteq {"dpath", "rdpath"})
   /\ CASE a.k \in {"list", "tuple"} ->
             Len(a.xs) = Len(b.xs) /\ \A i \in 1..Len(a.xs) : Same(a.xs[i], b.xs[i])
        [] a.k = "map" ->
             Len(a.xs) = Len(b.xs) /\
             \A i \in 1..Len(a.xs) : Same(a.xs[i][1], b.xs[i][1]) /\ Same(a.xs[i][2], b.xs[i][2])
        [] a.k = "str" -> a.xs = b.xs
-       [] a.k = "dpath" -> TRUE
+       [] a.k \in {"dpath", "rdpath"} -> TRUE
        [] OTHER -> a.n = b.n
 
 (***************************************************************************)
